@@ -178,6 +178,12 @@ func runCorpusTL1(c *core.Ctx, prop string, cp Corpus, k, kmut int) error {
 			return
 		}
 		nBytes++
+		if p.Dec.Unk {
+			// announced count beyond the model with the sanity rule off: the real reader may
+			// legitimately try to allocate it; not sent to the implementation (C08 covers sanity on)
+			unk++
+			return
+		}
 		op := "read1"
 		if p.Boxed {
 			op = "read1b"
@@ -189,13 +195,6 @@ func runCorpusTL1(c *core.Ctx, prop string, cp Corpus, k, kmut int) error {
 		}
 		s := r.Steps[0]
 		c.Add("evaluations", 1)
-		if p.Dec.Unk {
-			unk++
-			if s.Panic != "" {
-				c.Violate(fmt.Sprintf("tl1-bytes/%s/%s/%s/%s", cp.Name, p.Tn, op, hexs(p.B)), "panic: "+s.Panic, p)
-			}
-			return
-		}
 		bad := ""
 		got := s.Dump
 		switch {
